@@ -35,8 +35,9 @@ Proof. exact find_order_invariant. Qed.
 Print Assumptions C14_find_order_invariant.
 
 (* The loader's fold over ANY depth-sorted list of submodule entries below a regular top module, key by key:
-   a dotted name is present iff every prefix of it has a loadable candidate file, and then holds the merge of its
-   candidates in list order; no namespace module ever appears below a regular package. *)
+   a dotted name is present iff every proper prefix of it is taken by a package (the merge of the prefix's candidate
+   files is an __init__ module) and it has a loadable candidate itself; it then holds the merge of its candidates in
+   list order; no namespace module ever appears below a regular package. *)
 Theorem C14_loaded_characterisation :
   forall top E,
   sorted E -> (forall e, In e E -> e_parts e <> []) ->
@@ -57,20 +58,12 @@ Theorem C14_listing_order_invariant_regular :
 Proof. exact load_order_invariant_regular. Qed.
 Print Assumptions C14_listing_order_invariant_regular.
 
-(* The no_clash hypothesis is needed (finding F5), and the search paths themselves depend on the listing order
-   of .pth files (finding F2). *)
+(* The no_clash hypothesis is needed (finding F5). *)
 Theorem C14_listing_order_refuted_F5 :
   exists U U' sps name, perm_universe U U' /\ wf_universe U /\ any_listing gapL_F5 U = true /\
                         ~ same_tree (load false U sps name) (load false U' sps name).
 Proof. exact listing_order_refuted_F5. Qed.
 Print Assumptions C14_listing_order_refuted_F5.
-
-Theorem C14_paths_order_refuted_F2 :
-  perm_universe U_F2a U_F2b /\ gapU_F2_multi U_F2a = true /\
-  g_paths U_F2a [0] = Some [0; 2; 1] /\ g_paths U_F2b [0] = Some [0; 1; 2] /\ py_paths U_F2b [0] = [0; 2; 1] /\
-  ~ same_tree (load false U_F2a [0] "aa") (load false U_F2b [0] "aa").
-Proof. exact paths_order_refuted_F2. Qed.
-Print Assumptions C14_paths_order_refuted_F2.
 
 Theorem C14_paths_eq_refuted_F6 : gapU_F6 U_F6 = true /\ g_paths U_F6 [0] = Some [0] /\ py_paths U_F6 [0] = [0; 1].
 Proof. exact paths_eq_refuted_F6. Qed.
@@ -80,13 +73,8 @@ Theorem C14_paths_eq_refuted_F7 : gapU_F7 U_F7 = true /\ g_paths U_F7 [0] = Some
 Proof. exact paths_eq_refuted_F7. Qed.
 Print Assumptions C14_paths_eq_refuted_F7.
 
-(* "Every loaded module is importable from that file (or stub-only)" is false of the unchanged code: one witness
-   per finding, each satisfying exactly its own gap predicate. *)
-Theorem C14_loaded_importable_refuted_F1 :
-  exists U sps name, any_listing gapL_F1 U = true /\ loaded_importable U sps name = false.
-Proof. exact loaded_importable_refuted_F1. Qed.
-Print Assumptions C14_loaded_importable_refuted_F1.
-
+(* "Every loaded module is importable from that file (or stub-only)" is false of namespace packages spread over
+   several portions: one witness per remaining finding, each satisfying exactly its own gap predicate. *)
 Theorem C14_namespace_first_portion_wins_refuted_F3 :
   exists U sps name, gaps U sps name = ["F3"] /\ loaded_importable U sps name = false.
 Proof. exact namespace_first_portion_wins_refuted_F3. Qed.
@@ -97,22 +85,10 @@ Theorem C14_namespace_first_portion_wins_refuted_F8 :
 Proof. exact namespace_first_portion_wins_refuted_F8. Qed.
 Print Assumptions C14_namespace_first_portion_wins_refuted_F8.
 
-Theorem C14_namespace_portion_dirs_refuted_F9 :
-  exists U sps name, gaps U sps name = ["F9"] /\ loaded_importable U sps name = false.
-Proof. exact namespace_portion_dirs_refuted_F9. Qed.
-Print Assumptions C14_namespace_portion_dirs_refuted_F9.
-
 Theorem C14_namespace_first_portion_wins_refuted_F10 :
   exists U sps name, gaps U sps name = ["F10"] /\ loaded_importable U sps name = false.
 Proof. exact namespace_first_portion_wins_refuted_F10. Qed.
 Print Assumptions C14_namespace_first_portion_wins_refuted_F10.
-
-(* Loading is not total: a dot-file with a module extension aborts the load of a package CPython imports (F4). *)
-Theorem C14_load_total_refuted_F4 :
-  exists U sps name, any_listing gapL_F4 U = true /\ load false U sps name = LErr "ValueError" /\
-                     exists i l, py_find U name (top_dirs (py_paths U sps)) = PyPkg i l.
-Proof. exact load_total_refuted_F4. Qed.
-Print Assumptions C14_load_total_refuted_F4.
 
 (* The .pth loop of _extend_from_pth_files iterates over the list it appends to; the model runs it with explicit
    fuel.  The fuel g_paths passes always suffices, so the model's OutOfFuel result is never produced, for any layout. *)
@@ -129,8 +105,9 @@ Print Assumptions C14_load_never_out_of_fuel.
    __init__ file.  Whatever the static loader puts at a dotted name k below the package is the file CPython's
    import system resolves k to from the package's __path__ (module file or package __init__), or it is a stub and
    CPython finds no regular module there -- provided the package tree is in source form (no compiled file names, no
-   pkgutil-style declaration), no two files claim one module name (no_clash, cf. F5) and nothing is yielded below
-   the name of a plain module file (the shape of finding F1). *)
+   pkgutil-style declaration) and no two files claim one module name (no_clash, cf. F5).  The former exclusion of
+   the shape of finding F1 (a module file next to a same-named directory) is gone with the repair of
+   _get_or_create_parent_module: a plain module is no longer accepted as a parent. *)
 Theorem C14_loaded_importable_modulo_known :
   forall U D L0 es top k f,
   listing_at U D = Some L0 -> deep_nodup L0 ->
@@ -139,8 +116,6 @@ Theorem C14_loaded_importable_modulo_known :
      (forall ns pth, lookup_entry "__init__.py" Lq = Some (File ns pth) -> ns = false)) ->
   (forall e, In e es <-> exists rel, In rel (walk [] (Dir L0)) /\ yields D rel e) ->
   no_clash es ->
-  (forall m e, In m es -> In e es -> entry_ok m = true ->
-               name_to_yield (e_rel m) = YMod (e_parts m) -> is_proper_prefix (e_parts m) (e_parts e) = false) ->
   lookup_m k (run top (depth_sort es)) = Some (MFile f) -> k <> [] ->
   (forall c, In c k -> c <> "" /\ c <> "__init__" /\ c <> "__pycache__") ->
   agrees (MFile f) (py_import U [D] k) = true.
@@ -157,3 +132,10 @@ Theorem C14_loaded_importable_regular_checked :
   agrees (MFile f) (py_import U [(i, dirc)] k) = true.
 Proof. exact loaded_importable_regular_checked. Qed.
 Print Assumptions C14_loaded_importable_regular_checked.
+
+(* Static loading is total (F4 repaired: dot-files with a module extension are skipped): for every layout, search
+   path list and name, the only error the model's load can end in is reading a DIRECTORY that is called like the
+   package's module file (x.py/); in particular never ValueError and never OutOfFuel. *)
+Theorem C14_load_total : forall insp U sps name e, load insp U sps name = LErr e -> e = "LoadingError".
+Proof. exact load_total. Qed.
+Print Assumptions C14_load_total.
